@@ -42,12 +42,13 @@ def minMinor : Nat := versionMinors.head?.getD 0
 /-- `microversion.max_version_string()` = `VERSIONS[-1]` -/
 def maxMinor : Nat := versionMinors.getLast?.getD 0
 
-def windowsOf (h : String) : List Window := windows.filter (fun w => w.handler == h)
+/-- windows registered for the handler with interned id `h` -/
+def windowsOf (h : Nat) : List Window := windows.filter (fun w => w.hid == h)
 
 def inWindow (w : Window) (v : Nat) : Bool := decide (w.lo ≤ v) && decide (v ≤ w.hi)
 
 /-- `_find_method`: some registered window contains the version -/
-def inSomeWindow (h : String) (v : Nat) : Bool := (windowsOf h).any (fun w => inWindow w v)
+def inSomeWindow (h : Nat) (v : Nat) : Bool := (windowsOf h).any (fun w => inWindow w v)
 
 def statusAvail (s : Nat) : Avail := if s = 405 then .notAllowed405 else .notFound404
 
@@ -62,19 +63,19 @@ def availability (p m : String) (v : Nat) : Avail :=
   | none => if pathDeclared p then .notAllowed405 else .notFound404
   | some r =>
     if r.versioned then
-      if inSomeWindow r.handler v then .ok else statusAvail r.missStatus
+      if inSomeWindow r.hid v then .ok else statusAvail r.missStatus
     else .ok
 
 /-- smallest `lo` of the windows of a handler (`maxMinor + 1` when it has none) -/
-def introducedAt (h : String) : Nat := ((windowsOf h).map (·.lo)).foldl min (maxMinor + 1)
+def introducedAt (h : Nat) : Nat := ((windowsOf h).map (·.lo)).foldl min (maxMinor + 1)
 
 /-- version from which the route answers, when it is declared at all -/
 def routeIntroducedAt (p m : String) : Option Nat :=
-  (findRoute p m).map (fun r => if r.versioned then introducedAt r.handler else 0)
+  (findRoute p m).map (fun r => if r.versioned then introducedAt r.hid else 0)
 
 /-- (path, method, first version, status below it) of every declared route -/
 def routeSurface : List (String × String × Nat × Nat) :=
-  routes.map (fun r => (r.path, r.method, if r.versioned then introducedAt r.handler else 0,
+  routes.map (fun r => (r.path, r.method, if r.versioned then introducedAt r.hid else 0,
                         if r.versioned then r.missStatus else 0))
 
 /-- The routes the documentation lists (api-ref + rest_api_version_history.rst): first version and what
@@ -176,7 +177,7 @@ def findGate (func : String) (ord : Nat) : Option Gate :=
 /-! ## schema selection chains -/
 
 /-- the schema constant a chain picks at minor `v`, as the code evaluates it -/
-def SchemaChain.select (c : SchemaChain) (v : Nat) : String :=
+def chainSelect (c : SchemaChain) (v : Nat) : String :=
   if c.kind == "last" then
     c.arms.foldl (fun acc a => if gateOpen a.gateMinor v then a.schema else acc) c.default
   else
@@ -185,7 +186,7 @@ def SchemaChain.select (c : SchemaChain) (v : Nat) : String :=
     | none => c.default
 
 /-- what it should pick: the arm whose *name* carries the greatest version `≤ v`, else the default -/
-def SchemaChain.ideal (c : SchemaChain) (v : Nat) : String :=
+def chainIdeal (c : SchemaChain) (v : Nat) : String :=
   let cands := c.arms.filter (fun a => match a.nameMinor with | some n => decide (n ≤ v) | none => false)
   match cands.foldl (fun (best : Option Arm) a =>
       match best with
@@ -196,115 +197,192 @@ def SchemaChain.ideal (c : SchemaChain) (v : Nat) : String :=
 
 /-! ## documented features -/
 
-/-- One documented change of the API surface. `gates`: (function, ordinal) of generated gate sites,
-`windows`: (handler, lo) of generated version windows that implement it. -/
+/-- One documented change of the API surface, identified by the microversion that introduced it and a
+tag.  Appendix A of DESIGN.md, checked row by row against rest_api_version_history.rst and the code. -/
 structure Feature where
-  id : String
   minor : Nat
-  gates : List (String × Nat)
-  windows : List (String × Nat)
+  tag : String
+  what : String
   deriving Repr, DecidableEq
 
-private def hn (s : String) : String := "placement.handlers." ++ s
-
-/-- Appendix A of DESIGN.md, checked row by row against rest_api_version_history.rst and the code. -/
 def features : List Feature := [
-  ⟨"F01_aggregates_routes", 1, [], [(hn "aggregate.get_aggregates", 1), (hn "aggregate.set_aggregates", 1)]⟩,
-  ⟨"F01_links_aggregates", 1, [(hn "resource_provider._serialize_links", 0)], []⟩,
-  ⟨"F02_resource_class_routes", 2, [],
-    [(hn "resource_class.create_resource_class", 2), (hn "resource_class.delete_resource_class", 2),
-     (hn "resource_class.get_resource_class", 2), (hn "resource_class.list_resource_classes", 2),
-     (hn "resource_class.update_resource_class", 2)]⟩,
-  ⟨"F03_rp_member_of", 3, [(hn "resource_provider.list_resource_providers", 3)], []⟩,
-  ⟨"F04_rp_resources", 4, [(hn "resource_provider.list_resource_providers", 2)], []⟩,
-  ⟨"F05_delete_all_inventories", 5, [], [(hn "inventory.delete_inventories", 5)]⟩,
-  ⟨"F06_traits_routes", 6, [],
-    [(hn "trait.delete_trait", 6), (hn "trait.delete_traits_for_resource_provider", 6), (hn "trait.get_trait", 6),
-     (hn "trait.list_traits", 6), (hn "trait.list_traits_for_resource_provider", 6), (hn "trait.put_trait", 6),
-     (hn "trait.update_traits_for_resource_provider", 6)]⟩,
-  ⟨"F06_links_traits", 6, [(hn "resource_provider._serialize_links", 1)], []⟩,
-  ⟨"F07_put_resource_class_idempotent", 7, [], [(hn "resource_class.update_resource_class", 7)]⟩,
-  ⟨"F08_allocation_project_user", 8, [], [(hn "allocation.set_allocations_for_consumer", 8)]⟩,
-  ⟨"F09_usages_route", 9, [], [(hn "usage.get_total_usages", 9)]⟩,
-  ⟨"F10_allocation_candidates_route", 10, [], [(hn "allocation_candidate.list_allocation_candidates", 10)]⟩,
-  ⟨"F11_links_allocations", 11, [(hn "resource_provider._serialize_links", 2)], []⟩,
-  ⟨"F12_allocation_dict_format", 12,
-    [(hn "allocation._set_allocations_for_consumer", 0), (hn "allocation._serialize_allocations_for_consumer", 0),
-     (hn "allocation_candidate._transform_allocation_candidates", 0)],
-    [(hn "allocation.set_allocations_for_consumer", 12)]⟩,
-  ⟨"F13_post_allocations", 13, [], [(hn "allocation.set_allocations", 13)]⟩,
-  ⟨"F14_nested_providers", 14,
-    [(hn "resource_provider._serialize_provider", 0), (hn "resource_provider.create_resource_provider", 0),
-     (hn "resource_provider.update_resource_provider", 0), (hn "resource_provider.list_resource_providers", 1)], []⟩,
-  ⟨"F15_last_modified", 15,
-    [(hn "aggregate._send_aggregates", 1), (hn "allocation._last_modified_from_allocations", 0),
-     (hn "allocation.list_for_consumer", 0), (hn "allocation.list_for_resource_provider", 0),
-     (hn "allocation_candidate.list_allocation_candidates", 1), (hn "inventory._send_inventories", 0),
-     (hn "inventory._send_inventory", 0), (hn "resource_class._serialize_resource_classes", 0),
-     (hn "resource_class.get_resource_class", 0), (hn "resource_class.list_resource_classes", 0),
-     (hn "resource_provider._serialize_providers", 0), (hn "resource_provider.get_resource_provider", 0),
-     (hn "resource_provider.list_resource_providers", 4), (hn "resource_provider.update_resource_provider", 2),
-     (hn "root.home", 0), (hn "trait._serialize_traits", 0), (hn "trait.get_trait", 0), (hn "trait.list_traits", 0),
-     (hn "trait.list_traits_for_resource_provider", 0), (hn "trait.put_trait", 0),
-     (hn "trait.update_traits_for_resource_provider", 0), (hn "usage.get_total_usages", 1),
-     (hn "usage.list_usages", 0)], []⟩,
-  ⟨"F16_candidates_limit", 16, [(hn "allocation_candidate._get_schema", 7)], []⟩,
-  ⟨"F17_candidates_required", 17,
-    [(hn "allocation_candidate._get_schema", 6), (hn "allocation_candidate._transform_provider_summaries", 0)], []⟩,
-  ⟨"F18_rp_required", 18, [(hn "resource_provider.list_resource_providers", 0)], []⟩,
-  ⟨"F19_aggregates_generation", 19,
-    [(hn "aggregate._send_aggregates", 0), (hn "aggregate.set_aggregates", 0)], []⟩,
-  ⟨"F20_post_provider_returns_body", 20, [(hn "resource_provider.create_resource_provider", 1)], []⟩,
-  ⟨"F21_candidates_member_of", 21, [(hn "allocation_candidate._get_schema", 5)], []⟩,
-  ⟨"F22_forbidden_traits", 22,
-    [("placement.util.normalize_traits_qs_params", 0), ("placement.lib.RequestGroup.dict_from_request", 0)], []⟩,
-  ⟨"F23_error_code", 23, [("placement.util.json_error_formatter", 0)], []⟩,
-  ⟨"F24_repeated_member_of", 24, [("placement.util.normalize_member_of_qs_params", 0)], []⟩,
-  ⟨"F25_granular_groups", 25, [(hn "allocation_candidate._get_schema", 4)], []⟩,
-  ⟨"F26_reserved_equal_total", 26, [(hn "inventory._validate_inventory_capacity", 0)], []⟩,
-  ⟨"F27_all_classes_in_summaries", 27, [(hn "allocation_candidate._transform_provider_summaries", 1)], []⟩,
-  ⟨"F28_consumer_generation", 28,
-    [(hn "allocation._serialize_allocations_for_consumer", 1),
-     (hn "allocation._serialize_allocations_for_resource_provider", 0),
-     (hn "allocation.set_allocations", 0), (hn "util.ensure_consumer", 0)],
-    [(hn "allocation.set_allocations_for_consumer", 28)]⟩,
-  ⟨"F29_nested_candidates", 29,
-    [(hn "allocation_candidate._transform_provider_summaries", 2),
-     (hn "allocation_candidate.list_allocation_candidates", 0)], []⟩,
-  ⟨"F30_reshaper_route", 30, [], [(hn "reshaper.reshape", 30)]⟩,
-  ⟨"F31_candidates_in_tree", 31, [(hn "allocation_candidate._get_schema", 3)], []⟩,
-  ⟨"F32_forbidden_aggregates", 32, [("placement.util.normalize_member_of_qs_params", 1)], []⟩,
-  ⟨"F33_string_suffixes", 33,
-    [(hn "allocation_candidate._get_schema", 2), ("placement.lib.RequestGroup.dict_from_request", 1)], []⟩,
-  ⟨"F34_mappings", 34,
-    [(hn "allocation_candidate._transform_allocation_requests_dict", 0), (hn "allocation.set_allocations", 1),
-     (hn "reshaper.reshape", 1)],
-    [(hn "allocation.set_allocations_for_consumer", 34)]⟩,
-  ⟨"F35_root_required", 35, [(hn "allocation_candidate._get_schema", 1)], []⟩,
-  ⟨"F36_same_subtree", 36,
-    [(hn "allocation_candidate._get_schema", 0), ("placement.lib.RequestGroup.dict_from_request", 2)], []⟩,
-  ⟨"F37_reparenting", 37, [(hn "resource_provider.update_resource_provider", 1)], []⟩,
-  ⟨"F38_consumer_type", 38,
-    [(hn "allocation._serialize_allocations_for_consumer", 2), (hn "allocation.set_allocations", 2),
-     (hn "reshaper.reshape", 0), (hn "usage.get_total_usages", 0), (hn "util.ensure_consumer", 1)],
-    [(hn "allocation.set_allocations_for_consumer", 38)]⟩,
-  ⟨"F39_any_traits", 39, [("placement.util.normalize_traits_qs_params", 1)], []⟩
+  ⟨1, "aggregates_routes", "GET/PUT /resource_providers/{uuid}/aggregates (404 below)"⟩,
+  ⟨1, "links_aggregates", "`aggregates` entry in provider links"⟩,
+  ⟨2, "resource_class_routes", "/resource_classes routes (404 below)"⟩,
+  ⟨3, "rp_member_of", "`member_of` on GET /resource_providers (400 below)"⟩,
+  ⟨4, "rp_resources", "`resources` on GET /resource_providers (400 below)"⟩,
+  ⟨5, "delete_all_inventories", "DELETE /resource_providers/{uuid}/inventories (405 below)"⟩,
+  ⟨6, "traits_routes", "/traits and /resource_providers/{uuid}/traits routes (404 below)"⟩,
+  ⟨6, "links_traits", "`traits` entry in provider links"⟩,
+  ⟨7, "put_resource_class_idempotent", "bodiless PUT /resource_classes/{name} -> 201/204; rename with body only 1.2-1.6"⟩,
+  ⟨8, "allocation_project_user", "project_id/user_id required in PUT /allocations/{c} (rejected as extra keys below)"⟩,
+  ⟨9, "usages_route", "GET /usages (404 below)"⟩,
+  ⟨10, "allocation_candidates_route", "GET /allocation_candidates (404 below)"⟩,
+  ⟨11, "links_allocations", "`allocations` entry in provider links"⟩,
+  ⟨12, "allocation_dict_format", "dict-form allocations in PUT; project_id/user_id in GET /allocations/{c}; dict-form allocation_requests"⟩,
+  ⟨13, "post_allocations", "POST /allocations (404 below)"⟩,
+  ⟨14, "nested_providers", "parent_provider_uuid/root_provider_uuid in provider bodies, accepted in POST/PUT; in_tree on listing"⟩,
+  ⟨15, "last_modified", "last-modified + cache-control: no-cache on GETs and bodied PUT/POST"⟩,
+  ⟨16, "candidates_limit", "`limit` on GET /allocation_candidates (400 below)"⟩,
+  ⟨17, "candidates_required", "`required` on candidates (400 below); traits in provider_summaries"⟩,
+  ⟨18, "rp_required", "`required` on GET /resource_providers (400 below)"⟩,
+  ⟨19, "aggregates_generation", "aggregates payloads carry and check resource_provider_generation"⟩,
+  ⟨20, "post_provider_returns_body", "POST /resource_providers -> 200 with body (201 empty below)"⟩,
+  ⟨21, "candidates_member_of", "`member_of` on candidates (400 below)"⟩,
+  ⟨22, "forbidden_traits", "forbidden traits !T in required (400 below)"⟩,
+  ⟨23, "error_code", "`code` in error bodies"⟩,
+  ⟨24, "repeated_member_of", "repeated member_of (400 below)"⟩,
+  ⟨25, "granular_groups", "numbered request groups, group_policy (400 below)"⟩,
+  ⟨26, "reserved_equal_total", "inventory with reserved == total (400 below)"⟩,
+  ⟨27, "all_classes_in_summaries", "all resource classes in provider_summaries (requested only below)"⟩,
+  ⟨28, "consumer_generation", "consumer_generation in GET allocations, required in PUT/POST; empty allocations in PUT"⟩,
+  ⟨29, "nested_candidates", "nested candidates; parent/root uuid in provider_summaries"⟩,
+  ⟨30, "reshaper_route", "POST /reshaper (404 below)"⟩,
+  ⟨31, "candidates_in_tree", "in_tree, in_tree<N> on candidates (400 below)"⟩,
+  ⟨32, "forbidden_aggregates", "forbidden aggregates member_of=!agg, !in: (400 below)"⟩,
+  ⟨33, "string_suffixes", "string request group suffixes (400 below)"⟩,
+  ⟨34, "mappings", "mappings in allocation requests; accepted and ignored in PUT/POST allocations and reshaper"⟩,
+  ⟨35, "root_required", "root_required on candidates (400 below)"⟩,
+  ⟨36, "same_subtree", "same_subtree and resourceless groups on candidates (400 below)"⟩,
+  ⟨37, "reparenting", "re-parenting / un-parenting through PUT /resource_providers/{uuid} (400 below)"⟩,
+  ⟨38, "consumer_type", "consumer_type required in PUT/POST/reshaper, shown in GET /allocations/{c}; consumer_type filter and grouping in GET /usages"⟩,
+  ⟨39, "any_traits", "required=in:..., repeated required (400 / last one wins below)"⟩
 ]
 
-/-- features that claim gate site `(func, ord)` -/
-def claimsOfGate (func : String) (ord : Nat) : List Feature :=
-  features.filter (fun f => f.gates.any (fun c => c.1 == func && c.2 == ord))
+/-- A generated site (gate: function + ordinal; window: handler + first version) attributed to the
+feature `(minor, tag)`. -/
+structure Claim where
+  name : String
+  num : Nat
+  minor : Nat
+  tag : String
+  deriving Repr, DecidableEq
 
-/-- features that claim the window of `handler` starting at `lo` -/
-def claimsOfWindow (handler : String) (lo : Nat) : List Feature :=
-  features.filter (fun f => f.windows.any (fun c => c.1 == handler && c.2 == lo))
+/-- Which documented feature each in-handler gate site implements.  Hand written, in the order of the
+generated `gates` list (function, ordinal): `gates_accounted` demands a one-to-one positional match, so
+a new, removed or re-versioned gate in the source breaks the build until the documentation side is
+revisited. -/
+def gateClaims : List Claim := [
+  ⟨"placement.handlers.aggregate._send_aggregates", 0, 19, "aggregates_generation"⟩,
+  ⟨"placement.handlers.aggregate._send_aggregates", 1, 15, "last_modified"⟩,
+  ⟨"placement.handlers.aggregate.set_aggregates", 0, 19, "aggregates_generation"⟩,
+  ⟨"placement.handlers.allocation._last_modified_from_allocations", 0, 15, "last_modified"⟩,
+  ⟨"placement.handlers.allocation._serialize_allocations_for_consumer", 0, 12, "allocation_dict_format"⟩,
+  ⟨"placement.handlers.allocation._serialize_allocations_for_consumer", 1, 28, "consumer_generation"⟩,
+  ⟨"placement.handlers.allocation._serialize_allocations_for_consumer", 2, 38, "consumer_type"⟩,
+  ⟨"placement.handlers.allocation._serialize_allocations_for_resource_provider", 0, 28, "consumer_generation"⟩,
+  ⟨"placement.handlers.allocation._set_allocations_for_consumer", 0, 12, "allocation_dict_format"⟩,
+  ⟨"placement.handlers.allocation.list_for_consumer", 0, 15, "last_modified"⟩,
+  ⟨"placement.handlers.allocation.list_for_resource_provider", 0, 15, "last_modified"⟩,
+  ⟨"placement.handlers.allocation.set_allocations", 0, 28, "consumer_generation"⟩,
+  ⟨"placement.handlers.allocation.set_allocations", 1, 34, "mappings"⟩,
+  ⟨"placement.handlers.allocation.set_allocations", 2, 38, "consumer_type"⟩,
+  ⟨"placement.handlers.allocation_candidate._get_schema", 0, 36, "same_subtree"⟩,
+  ⟨"placement.handlers.allocation_candidate._get_schema", 1, 35, "root_required"⟩,
+  ⟨"placement.handlers.allocation_candidate._get_schema", 2, 33, "string_suffixes"⟩,
+  ⟨"placement.handlers.allocation_candidate._get_schema", 3, 31, "candidates_in_tree"⟩,
+  ⟨"placement.handlers.allocation_candidate._get_schema", 4, 25, "granular_groups"⟩,
+  ⟨"placement.handlers.allocation_candidate._get_schema", 5, 21, "candidates_member_of"⟩,
+  ⟨"placement.handlers.allocation_candidate._get_schema", 6, 17, "candidates_required"⟩,
+  ⟨"placement.handlers.allocation_candidate._get_schema", 7, 16, "candidates_limit"⟩,
+  ⟨"placement.handlers.allocation_candidate._transform_allocation_candidates", 0, 12, "allocation_dict_format"⟩,
+  ⟨"placement.handlers.allocation_candidate._transform_allocation_requests_dict", 0, 34, "mappings"⟩,
+  ⟨"placement.handlers.allocation_candidate._transform_provider_summaries", 0, 17, "candidates_required"⟩,
+  ⟨"placement.handlers.allocation_candidate._transform_provider_summaries", 1, 27, "all_classes_in_summaries"⟩,
+  ⟨"placement.handlers.allocation_candidate._transform_provider_summaries", 2, 29, "nested_candidates"⟩,
+  ⟨"placement.handlers.allocation_candidate.list_allocation_candidates", 0, 29, "nested_candidates"⟩,
+  ⟨"placement.handlers.allocation_candidate.list_allocation_candidates", 1, 15, "last_modified"⟩,
+  ⟨"placement.handlers.inventory._send_inventories", 0, 15, "last_modified"⟩,
+  ⟨"placement.handlers.inventory._send_inventory", 0, 15, "last_modified"⟩,
+  ⟨"placement.handlers.inventory._validate_inventory_capacity", 0, 26, "reserved_equal_total"⟩,
+  ⟨"placement.handlers.reshaper.reshape", 0, 38, "consumer_type"⟩,
+  ⟨"placement.handlers.reshaper.reshape", 1, 34, "mappings"⟩,
+  ⟨"placement.handlers.resource_class._serialize_resource_classes", 0, 15, "last_modified"⟩,
+  ⟨"placement.handlers.resource_class.get_resource_class", 0, 15, "last_modified"⟩,
+  ⟨"placement.handlers.resource_class.list_resource_classes", 0, 15, "last_modified"⟩,
+  ⟨"placement.handlers.resource_provider._serialize_links", 0, 1, "links_aggregates"⟩,
+  ⟨"placement.handlers.resource_provider._serialize_links", 1, 6, "links_traits"⟩,
+  ⟨"placement.handlers.resource_provider._serialize_links", 2, 11, "links_allocations"⟩,
+  ⟨"placement.handlers.resource_provider._serialize_provider", 0, 14, "nested_providers"⟩,
+  ⟨"placement.handlers.resource_provider._serialize_providers", 0, 15, "last_modified"⟩,
+  ⟨"placement.handlers.resource_provider.create_resource_provider", 0, 14, "nested_providers"⟩,
+  ⟨"placement.handlers.resource_provider.create_resource_provider", 1, 20, "post_provider_returns_body"⟩,
+  ⟨"placement.handlers.resource_provider.get_resource_provider", 0, 15, "last_modified"⟩,
+  ⟨"placement.handlers.resource_provider.list_resource_providers", 0, 18, "rp_required"⟩,
+  ⟨"placement.handlers.resource_provider.list_resource_providers", 1, 14, "nested_providers"⟩,
+  ⟨"placement.handlers.resource_provider.list_resource_providers", 2, 4, "rp_resources"⟩,
+  ⟨"placement.handlers.resource_provider.list_resource_providers", 3, 3, "rp_member_of"⟩,
+  ⟨"placement.handlers.resource_provider.list_resource_providers", 4, 15, "last_modified"⟩,
+  ⟨"placement.handlers.resource_provider.update_resource_provider", 0, 14, "nested_providers"⟩,
+  ⟨"placement.handlers.resource_provider.update_resource_provider", 1, 37, "reparenting"⟩,
+  ⟨"placement.handlers.resource_provider.update_resource_provider", 2, 15, "last_modified"⟩,
+  ⟨"placement.handlers.root.home", 0, 15, "last_modified"⟩,
+  ⟨"placement.handlers.trait._serialize_traits", 0, 15, "last_modified"⟩,
+  ⟨"placement.handlers.trait.get_trait", 0, 15, "last_modified"⟩,
+  ⟨"placement.handlers.trait.list_traits", 0, 15, "last_modified"⟩,
+  ⟨"placement.handlers.trait.list_traits_for_resource_provider", 0, 15, "last_modified"⟩,
+  ⟨"placement.handlers.trait.put_trait", 0, 15, "last_modified"⟩,
+  ⟨"placement.handlers.trait.update_traits_for_resource_provider", 0, 15, "last_modified"⟩,
+  ⟨"placement.handlers.usage.get_total_usages", 0, 38, "consumer_type"⟩,
+  ⟨"placement.handlers.usage.get_total_usages", 1, 15, "last_modified"⟩,
+  ⟨"placement.handlers.usage.list_usages", 0, 15, "last_modified"⟩,
+  ⟨"placement.handlers.util.ensure_consumer", 0, 28, "consumer_generation"⟩,
+  ⟨"placement.handlers.util.ensure_consumer", 1, 38, "consumer_type"⟩,
+  ⟨"placement.lib.RequestGroup.dict_from_request", 0, 22, "forbidden_traits"⟩,
+  ⟨"placement.lib.RequestGroup.dict_from_request", 1, 33, "string_suffixes"⟩,
+  ⟨"placement.lib.RequestGroup.dict_from_request", 2, 36, "same_subtree"⟩,
+  ⟨"placement.util.json_error_formatter", 0, 23, "error_code"⟩,
+  ⟨"placement.util.normalize_member_of_qs_params", 0, 24, "repeated_member_of"⟩,
+  ⟨"placement.util.normalize_member_of_qs_params", 1, 32, "forbidden_aggregates"⟩,
+  ⟨"placement.util.normalize_traits_qs_params", 0, 22, "forbidden_traits"⟩,
+  ⟨"placement.util.normalize_traits_qs_params", 1, 39, "any_traits"⟩
+]
+
+/-- Which documented feature each version window that does not start at 1.0 implements (handler, lo),
+in the order of the generated `windows` list. -/
+def windowClaims : List Claim := [
+  ⟨"placement.handlers.aggregate.get_aggregates", 1, 1, "aggregates_routes"⟩,
+  ⟨"placement.handlers.aggregate.set_aggregates", 1, 1, "aggregates_routes"⟩,
+  ⟨"placement.handlers.allocation.set_allocations", 13, 13, "post_allocations"⟩,
+  ⟨"placement.handlers.allocation.set_allocations_for_consumer", 8, 8, "allocation_project_user"⟩,
+  ⟨"placement.handlers.allocation.set_allocations_for_consumer", 12, 12, "allocation_dict_format"⟩,
+  ⟨"placement.handlers.allocation.set_allocations_for_consumer", 28, 28, "consumer_generation"⟩,
+  ⟨"placement.handlers.allocation.set_allocations_for_consumer", 34, 34, "mappings"⟩,
+  ⟨"placement.handlers.allocation.set_allocations_for_consumer", 38, 38, "consumer_type"⟩,
+  ⟨"placement.handlers.allocation_candidate.list_allocation_candidates", 10, 10, "allocation_candidates_route"⟩,
+  ⟨"placement.handlers.inventory.delete_inventories", 5, 5, "delete_all_inventories"⟩,
+  ⟨"placement.handlers.reshaper.reshape", 30, 30, "reshaper_route"⟩,
+  ⟨"placement.handlers.resource_class.create_resource_class", 2, 2, "resource_class_routes"⟩,
+  ⟨"placement.handlers.resource_class.delete_resource_class", 2, 2, "resource_class_routes"⟩,
+  ⟨"placement.handlers.resource_class.get_resource_class", 2, 2, "resource_class_routes"⟩,
+  ⟨"placement.handlers.resource_class.list_resource_classes", 2, 2, "resource_class_routes"⟩,
+  ⟨"placement.handlers.resource_class.update_resource_class", 2, 2, "resource_class_routes"⟩,
+  ⟨"placement.handlers.resource_class.update_resource_class", 7, 7, "put_resource_class_idempotent"⟩,
+  ⟨"placement.handlers.trait.delete_trait", 6, 6, "traits_routes"⟩,
+  ⟨"placement.handlers.trait.delete_traits_for_resource_provider", 6, 6, "traits_routes"⟩,
+  ⟨"placement.handlers.trait.get_trait", 6, 6, "traits_routes"⟩,
+  ⟨"placement.handlers.trait.list_traits", 6, 6, "traits_routes"⟩,
+  ⟨"placement.handlers.trait.list_traits_for_resource_provider", 6, 6, "traits_routes"⟩,
+  ⟨"placement.handlers.trait.put_trait", 6, 6, "traits_routes"⟩,
+  ⟨"placement.handlers.trait.update_traits_for_resource_provider", 6, 6, "traits_routes"⟩,
+  ⟨"placement.handlers.usage.get_total_usages", 9, 9, "usages_route"⟩
+]
+
+def Claim.isOf (c : Claim) (f : Feature) : Bool := c.minor == f.minor && c.tag == f.tag
+
+/-- the generated gates attributed to a feature (positional pairing of `gates` with `gateClaims`) -/
+def Feature.gateSites (f : Feature) : List Gate :=
+  (gates.zip gateClaims).filterMap (fun gc => if gc.2.isOf f then some gc.1 else none)
+
+/-- the generated windows attributed to a feature -/
+def Feature.windowSites (f : Feature) : List Window :=
+  ((windows.filter (fun w => w.lo != 0)).zip windowClaims).filterMap (fun wc => if wc.2.isOf f then some wc.1 else none)
 
 /-- is the feature present at minor `v` according to the documentation? -/
 def Feature.documentedAt (f : Feature) (v : Nat) : Bool := decide (f.minor ≤ v)
 
 /-- is it present according to the code: all its gates open, and its windows started -/
 def Feature.implementedAt (f : Feature) (v : Nat) : Bool :=
-  f.gates.all (fun c => match findGate c.1 c.2 with | some g => gateOpen g.minor v | none => false) &&
-  f.windows.all (fun c => (Placement.Gen.windows.any (fun w => w.handler == c.1 && w.lo == c.2)) && decide (c.2 ≤ v))
+  f.gateSites.all (fun g => gateOpen g.minor v) && f.windowSites.all (fun w => decide (w.lo ≤ v))
 
 end Placement.Versions
